@@ -40,6 +40,37 @@ TARGETS = [
         pre_rules=[(r'LOG_ERROR_RETURN\(EINVAL, , "invalid parameter"\);', '{ errno = EINVAL; return; }', 1)],
         defers=dict(rettype='void', scoped_lock=('ith_lock(th) /* {0} */', 'ith_unlock(th) /* {0} */')),
         rules=[(r'states::(\w+)', r'states_\1', 1)]),
+    Target('t_expiration', T, r'uint64_t expiration\(\) const      (?=\{)', rules=[fields_rule(['m_expiration'])]),
+    Target('prepare_usleep', TH, r'Switch prepare_usleep\(Timeout timeout, thread_list\* waitq, RunQ rq = \{\}\)',
+        pre_rules=[(r'spinlock\* waitq_lock = waitq \? &waitq->lock : nullptr;', 'int *waitq_lock = waitq ? &waitq->lock : NULL;', 1),
+                   (r'SCOPED_LOCK\(waitq_lock, \(\(bool\) waitq\) \* 2\);', 'spin_lock_opt(waitq_lock); DEFER(spin_unlock_opt(waitq_lock));', 1),   # ScopedLock(ptr, 2*(ptr != 0)): locks iff the pointer is non-null
+                   (r'SCOPED_LOCK\(rq\.current->lock\);', 'spin_lock_opt(&rq.current->lock); DEFER(spin_unlock_opt(&rq.current->lock));', 1)],
+        defers=dict(rettype='struct ISwitch'),
+        rules=[(r'__auto_type sw = AtomicRunQ\(rq\)\.remove_current\(states::(\w+)\);', r'struct ISwitch sw = runq_remove_current(rq, states_\1);', 1),
+               (r'waitq->push_back\(sw\.from\);', 'twaitq_push_back(waitq, sw.from);', 1),
+               (r'if_update_now\(true\);', 'if_update_now_();', 1),
+               (r'timeout\.(expiration|timeout|expired)\(\)', r'Timeout_\1(&timeout)', 1),
+               (r'sw\.from->get_vcpu\(\)->sleepq\.push\(sw\.from\);', 'vcpu_sleepq_push(ith_get_vcpu(sw.from), sw.from);', 1)]),
+    Target('resume_threads_inlined', TH, r'int resume_threads_inlined\(vcpu_t\* vcpu, const RunQ& runq\)',
+        pre_rules=[(r'else assert\(\(\{.*?\}\)\);', 'else { /* debug-only assert */ }', 1),
+                   # SCOPED_LOCK in the do-while body: released at the end of every iteration; the rule fires only if no break/continue/return/goto lies between
+                   (r'SCOPED_LOCK\(th->lock\);((?:(?!\b(?:break|continue|return|goto)\b).)*?)\} while\s*\(', r'rs_lock(th);\1 rs_unlock(th); } while(', 1)],
+        rules=[(r'thread_list list;', 'struct tlist list; list.node = NULL;', 1),
+               (r'auto& standbyq = vcpu->standbyq;', ';', 1), (r'auto& sleepq = vcpu->sleepq;', ';', 1),
+               (r'standbyq\.eject_whole_atomic\(\)', 'standbyq_eject_whole_atomic(vcpu)', 1),
+               (r'for \(__auto_type th: list\) \{', 'for (size_t it_ = 0; it_ < list_len(&list); it_++) { struct ithread *th = list_at(&list, it_);', 1),
+               (r'states::(\w+)', r'states_\1', 1),
+               (r'sleepq\.pop\(th\);', 'sleepq_pop_any(vcpu, th);', 1), (r'sleepq\.empty\(\)', 'sleepq_empty(vcpu)', 2),
+               (r'sleepq\.front\(\)', 'sleepq_front(vcpu)', 1), (r'sleepq\.pop_front\(\);', 'sleepq_pop_front(vcpu);', 1),
+               (r'if_update_now\(\);', 'if_update_now_rs();', 1),
+               (r'th->dequeue_ready_atomic\(\);', 'ith_dequeue_ready_atomic(th, states_READY);', 1),
+               (r'list\.push_back\(th\);', 'list_push_back(&list, th);', 1),
+               (r'AtomicRunQ\(runq\)\.insert_list_before\(list\);', 'runq_insert_list_before(runq, &list);', 1)],
+        marks={'count': 2,
+               0: dict(name='SB', frame=['it_', 'count', 'SQ_N', 'G_IN_HEAP', 'GT', 'OT', 'th'], effects={'list_at': ['OT'], 'sleepq_pop_any': ['SQ_N', 'G_IN_HEAP']}, pure=['list_len'], ptr_targets={'th': ['GT', 'OT']}),
+               1: dict(name='EX', frame=['count', 'SQ_N', 'L_LEN', 'G_IN_HEAP', 'G_IN_LIST', 'GT', 'OT', 'G_CLASS', 'FRONT_', 'N_LOCKS', 'th', 'N_DEQ', 'DEQ_STATE'],
+                       effects={'sleepq_front': ['OT', 'FRONT_'], 'rs_lock': ['GT', 'OT', 'G_CLASS', 'N_LOCKS'], 'rs_unlock': ['GT', 'OT', 'N_LOCKS'], 'sleepq_pop_front': ['SQ_N', 'G_IN_HEAP', 'FRONT_'],
+                                'ith_dequeue_ready_atomic': ['GT', 'OT', 'N_DEQ', 'DEQ_STATE'], 'list_push_back': ['L_LEN', 'G_IN_LIST']}, pure=['sleepq_empty'], ptr_targets={'th': ['GT', 'OT']})}),
     Target('shutdown_usleep', TH, r'static int do_shutdown_usleep\(Timeout timeout, RunQ rq\)', rules=[
         (r'timeout\.timeout_at_most\(', 'Timeout_at_most(&timeout, ', 1)]),
     Target('shutdown_usleep_defer', TH, r'static int do_shutdown_usleep_defer\(Timeout timeout,\s*defer_func defer, void\* defer_arg, RunQ rq\)', rules=[
@@ -59,14 +90,16 @@ TARGETS = [
     Target('pop_front', TH, r'thread\* pop_front\(\)', rules=Q + [(r'(?<![\w>.])down\(', 'SQ_down(this, ', 1)]),
     Target('pop', TH, r'int pop\(thread \*obj\)', rules=Q + [(r'(?<![\w>.])up\(', 'SQ_up(this, ', 1), (r'(?<![\w>.])down\(', 'SQ_down(this, ', 1)]),
 ]
-UNITS = {'sleep.c': 'sleep.c.in'}
+UNITS = {'sleep.c': 'sleep.c.in', 'sched.c': 'sched.c.in'}
 PROOFS = [
     Proof('sat_arith', 'sleep.c', 'h_sat', kind='L', min_obligations=2),
     Proof('timeout', 'sleep.c', 'h_timeout', kind='L', min_obligations=5),
     Proof('error_number', 'sleep.c', 'h_error_number', kind='L', min_obligations=5),
     Proof('yield_consumes_interrupt', 'sleep.c', 'h_yield', kind='L', min_obligations=2),
-    Proof('interrupt/sleeper', 'sleep.c', 'h_prelocked', kind='L', min_obligations=4),
-    Proof('interrupt/dispatch', 'sleep.c', 'h_interrupt', kind='L', defines=['STUB_PRELOCKED'], min_obligations=5),
+    Proof('interrupt/sleeper', 'sched.c', 'h_prelocked', kind='L', min_obligations=4),
+    Proof('interrupt/dispatch', 'sched.c', 'h_interrupt', kind='L', defines=['STUB_PRELOCKED'], min_obligations=5),
+    Proof('prepare_usleep', 'sched.c', 'h_prepare_usleep', kind='L', min_obligations=6),
+    Proof('resume_pass', 'sched.c', 'h_resume_threads', kind='L', min_obligations=8, expect_loops=2, aux_violation=True),
     Proof('shutdown_cap', 'sleep.c', 'h_shutdown', kind='L', min_obligations=3),
     Proof('sleepq/push_n6', 'sleep.c', 'h_heap', kind='B', defines=['HN=7', 'OP=0'], unwind=10, bound='at most 6 sleepers before the operation, all 64-bit deadlines', timeout=900, mem_gb=16),
     Proof('sleepq/push_n14', 'sleep.c', 'h_heap', kind='B', defines=['HN=15', 'OP=0'], unwind=18, bound='at most 14 sleepers before the operation, all 64-bit deadlines', timeout=3000, mem_gb=24, tier='thorough'),
